@@ -88,6 +88,7 @@ fn main() {
             // check is reported as a violation of that check with the registered case (crash.rs)
             if id.len() == 3 && id.starts_with('C') {
                 crash::install(&id);
+                crash::install_lock_hook(&id);
             }
             // last line of defence against a check that hangs (e.g. a library thread stuck in a way the
             // harness does not recognise): never a verdict, but never an endless run either
